@@ -1,9 +1,10 @@
-(* C03 — shared-library names through ResolvePackageNameVersionPin, for ALL names and version strings: what a
-   so: constraint resolves to under each of the six operators (the 0.V rescaling is found by strings.Cut at the first "="),
-   and the verdict of SatisfiedBy on a so: provide.  With an operator that contains "=" both sides are rescaled alike and
-   the verdict is the spec's operator on the two versions; without "=" the constraint keeps its scale (finding C03-F2). *)
+(* C03 — shared-library names through ResolvePackageNameVersionPin, for ALL names and version strings, on TODAY's code (since
+   fix C03-F2, commit 0f275a6): the shape goextract read from the source is the operator-run scan, the model's so_rewrite is
+   the readable hand form, a so: constraint resolves to its parts with the version moved to 0.V exactly when V has no release
+   suffix - under every one of the six operators -, and the verdict of SatisfiedBy on a so: provide is the spec's operator on
+   the two versions (same kind on both sides).  The old shape lives in Proofs/SonameOldProofs.v. *)
 From Coq Require Import ZifyBool ZifyN Lia.
-From Apko Require Import Base.Prelude Base.Regex Spec.VersionSpec Model.Version
+From Apko Require Import Base.Prelude Base.Regex Spec.VersionSpec Model.Version Model.SonameShapes
   Proofs.VersionProofs Proofs.ConstraintProofs Proofs.VersionStringProofs Proofs.VersionPrefixProofs
   Generated.Regexes Generated.VersionConsts Generated.C03Version Generated.C03Ladders.
 Open Scope string_scope. Open Scope list_scope. Open Scope Z_scope.
@@ -26,59 +27,72 @@ Qed.
 Lemma strip_prefix_app p s : strip_prefix p (p ++ s) = Some s.
 Proof. induction p as [|c p IH]; cbn [strip_prefix app]; [reflexivity|]. rewrite N.eqb_refl. exact IH. Qed.
 
-Definition no_eq (l : list N) : bool := forallb (fun c => negb (c =? 61)%N) l.
-
-Lemma cut_eq_found a b : no_eq a = true -> cut_eq (a ++ 61%N :: b) = Some (a, b).
-Proof.
-  induction a as [|c a IH]; cbn [app cut_eq no_eq forallb]; intros H.
-  - reflexivity.
-  - apply andb_true_iff in H. destruct H as [Hc Ha]. apply negb_true_iff in Hc. rewrite Hc.
-    fold (no_eq a) in Ha. rewrite (IH Ha). reflexivity.
-Qed.
-
-Lemma cut_eq_none a : no_eq a = true -> cut_eq a = None.
-Proof.
-  induction a as [|c a IH]; cbn [cut_eq no_eq forallb]; intros H; [reflexivity|].
-  apply andb_true_iff in H. destruct H as [Hc Ha]. apply negb_true_iff in Hc. rewrite Hc.
-  fold (no_eq a) in Ha. rewrite (IH Ha). reflexivity.
-Qed.
-
-Lemma no_eq_app a b : no_eq (a ++ b) = no_eq a && no_eq b.
-Proof. apply forallb_app. Qed.
-
 Lemma forallb_impl {A} (p q : A -> bool) l : (forall x, p x = true -> q x = true) -> forallb p l = true -> forallb q l = true.
 Proof. intros Hpq. induction l as [|x l IH]; cbn [forallb]; [auto|]. intros H. apply andb_true_iff in H. destruct H as [H1 H2]. rewrite (Hpq x H1), (IH H2). reflexivity. Qed.
 
-Lemma namechars_no_eq l : forallb is_namechar l = true -> no_eq l = true.
-Proof. apply forallb_impl. intros c. unfold is_namechar, is_opchar. lia. Qed.
 
-(* the rewrite of a so: string that has an "=" after a part without one: "0." goes right behind that "=" *)
-Lemma so_rewrite_eq pre v : no_eq pre = true ->
-  so_rewrite (so_bytes ++ pre ++ 61%N :: v) =
-    if ends_release v then so_bytes ++ pre ++ 61%N :: v else so_bytes ++ pre ++ 61%N :: 48%N :: 46%N :: v.
+(* ---------- the shape of the rewrite in the source, and its readable form ------------------------------ *)
+(* THIS is the statement a revert of the fix changes: goextract then reads SoCutAt "=" "=0." *)
+Lemma so_shape_today : so_rewrite_shape = SoOperatorRun "=><~" "0.".
+Proof. reflexivity. Qed.
+
+Lemma byte_in_opchars c : byte_in "=><~" c = is_opchar c.
+Proof. unfold byte_in, is_opchar. cbn [bytes_of_string list_ascii_of_string List.map existsb]. cbn. lia. Qed.
+
+Lemma span_ext (p q : N -> bool) : (forall c, p c = q c) -> forall s, span p s = span q s.
+Proof. intros H. induction s as [|c s IH]; cbn [span]; [reflexivity|]. rewrite H, IH. reflexivity. Qed.
+
+Theorem so_rewrite_today s : so_rewrite s = so_rewrite_run s.
 Proof.
-  intros Hp. unfold so_rewrite. fold so_bytes. rewrite strip_prefix_app.
-  rewrite app_assoc. rewrite cut_eq_found by (rewrite no_eq_app, Hp; reflexivity).
+  unfold so_rewrite. rewrite so_shape_today. unfold so_rewrite_with, so_rewrite_run.
+  destruct (strip_prefix (bytes_of_string "so:") s); [|reflexivity].
+  rewrite (span_ext _ (fun c => negb (is_opchar c))) by (intro c; rewrite byte_in_opchars; reflexivity).
+  destruct (span (fun c => negb (is_opchar c)) s) as [name r1].
+  rewrite (span_ext _ is_opchar byte_in_opchars). reflexivity.
+Qed.
+
+Definition no_op (l : list N) : bool := forallb (fun c => negb (is_opchar c)) l.
+Definition head_no_op (l : list N) : Prop := match l with c :: _ => is_opchar c = false | [] => True end.
+
+(* the rewrite on name ++ ops ++ v *)
+Lemma so_rewrite_split pre ops v :
+  no_op (so_bytes ++ pre) = true -> ops <> [] -> forallb is_opchar ops = true -> head_no_op v ->
+  so_rewrite (so_bytes ++ pre ++ ops ++ v) =
+    if ends_release v then so_bytes ++ pre ++ ops ++ v else so_bytes ++ pre ++ ops ++ 48%N :: 46%N :: v.
+Proof.
+  intros Hp Ho1 Ho2 Hv. rewrite so_rewrite_today. unfold so_rewrite_run. fold so_bytes. rewrite strip_prefix_app.
+  rewrite (app_assoc so_bytes pre).
+  rewrite (span_app (fun c => negb (is_opchar c)) (so_bytes ++ pre) (ops ++ v) Hp).
+  2:{ destruct ops as [|o ops']; [congruence|]. cbn in *. apply andb_true_iff in Ho2. destruct Ho2 as [Ho _]. rewrite Ho. reflexivity. }
+  rewrite (span_app is_opchar ops v Ho2).
+  2:{ destruct v; [exact I | exact Hv]. }
+  destruct ops as [|o ops']; [congruence|].
   fold (ends_release v). destruct (ends_release v); [reflexivity|].
   rewrite <- app_assoc. reflexivity.
 Qed.
 
-(* ... and of one without any "=": untouched *)
-Lemma so_rewrite_no_eq rest : no_eq rest = true -> so_rewrite (so_bytes ++ rest) = so_bytes ++ rest.
+Lemma so_rewrite_no_op rest : no_op (so_bytes ++ rest) = true -> so_rewrite (so_bytes ++ rest) = so_bytes ++ rest.
 Proof.
-  intros Hr. unfold so_rewrite. fold so_bytes. rewrite strip_prefix_app.
-  rewrite cut_eq_none by (rewrite no_eq_app, Hr; reflexivity). reflexivity.
+  intros H. rewrite so_rewrite_today. unfold so_rewrite_run. fold so_bytes. rewrite strip_prefix_app.
+  rewrite <- (app_nil_r (so_bytes ++ rest)) at 1.
+  rewrite (span_app (fun c => negb (is_opchar c)) (so_bytes ++ rest) [] H I). reflexivity.
 Qed.
 
-(* ---------- ResolvePackageNameVersionPin on a string whose REWRITTEN form has clean parts ---------- *)
-Lemma resolve_rewritten s0 name ops v pin :
-  so_rewrite (bytes_of_string s0) = name ++ ops ++ v ++ pin_tail pin ->
+Lemma so_rewrite_other s : strip_prefix so_bytes s = None -> so_rewrite s = s.
+Proof. intros H. rewrite so_rewrite_today. unfold so_rewrite_run. fold so_bytes. rewrite H. reflexivity. Qed.
+
+(* ---------- ResolvePackageNameVersionPin with any rewrite step, on a string whose REWRITTEN form has clean parts ---------- *)
+Lemma resolve_with_today s0 : resolve_constraint s0 = resolve_with so_rewrite s0.
+Proof. reflexivity. Qed.
+
+Lemma resolve_with_rewritten rw s0 name ops v pin :
+  rw (bytes_of_string s0) = name ++ ops ++ v ++ pin_tail pin ->
   clean name ops v pin ->
-  resolve_constraint s0 =
+  resolve_with rw s0 =
     {| c_name := string_of_bytes name; c_version := string_of_bytes v;
        c_dep := dep_of_matcher (string_of_bytes ops); c_pin := string_of_bytes pin |}.
 Proof.
-  intros Hs Hc. unfold resolve_constraint. cbv zeta. rewrite Hs.
+  intros Hs Hc. unfold resolve_with. cbv zeta. rewrite Hs.
   unfold full_match. rewrite package_name_regex_body.
   rewrite bytes_roundtrip.
   2:{ destruct Hc as [Hb _ _ _ _]. destruct pin as [|p0 pin']; [exact Hb|].
@@ -87,6 +101,10 @@ Proof.
   rewrite (match_clean _ _ _ _ Hc). rewrite (split_clean _ _ _ _ Hc).
   destruct Hc as [_ _ [Ho _] _ _]. destruct ops; [congruence | reflexivity].
 Qed.
+
+Definition no_eq (l : list N) : bool := forallb (fun c => negb (c =? 61)%N) l.
+Lemma no_eq_app a b : no_eq (a ++ b) = no_eq a && no_eq b.
+Proof. apply forallb_app. Qed.
 
 (* ---------- the operator rows, as byte strings (finite check over the regenerated switch) ---------- *)
 Definition has_eq (op : string) : bool := existsb (fun c => (c =? 61)%N) (bytes_of_string op).
@@ -155,49 +173,42 @@ Proof.
   rewrite forallb_forall in K. specialize (K row Hin). apply Z.eqb_eq in K. exact K.
 Qed.
 
-(* the version a so: constraint is given: moved to 0.V exactly when the operator contains "=" and V has no release suffix *)
-Definition so_version (op v : string) : string :=
-  if has_eq op && negb (ends_release_s v) then "0." ++ v else v.
+Lemma namechars_no_op l : forallb is_namechar l = true -> no_op l = true.
+Proof. apply forallb_impl. intros c. unfold is_namechar. lia. Qed.
+
+(* the version a so: constraint is given: moved to 0.V exactly when V has no release suffix, whatever the operator *)
+Definition so_version (v : string) : string := if negb (ends_release_s v) then "0." ++ v else v.
 
 Theorem resolve_so row nm v pv :
   In row matcher_table -> namechars nm -> parse_version v = Some pv ->
   resolve_constraint ("so:" ++ nm ++ fst row ++ v) =
-    {| c_name := "so:" ++ nm; c_version := so_version (fst row) v; c_dep := snd row; c_pin := "" |}.
+    {| c_name := "so:" ++ nm; c_version := so_version v; c_dep := snd row; c_pin := "" |}.
 Proof.
   intros Hin Hn Hp.
-  destruct (op_row_facts row Hin) as (Ho1 & Ho2 & Hshape).
-  assert (Hbytes : bytes_of_string ("so:" ++ nm ++ fst row ++ v) =
-                   so_bytes ++ bytes_of_string nm ++ bytes_of_string (fst row) ++ bytes_of_string v).
-  { rewrite !bytes_app. reflexivity. }
+  destruct (op_row_facts row Hin) as (Ho1 & Ho2 & _).
+  destruct (grammar_first_digits _ (parse_accept_grammar v pv Hp)) as (c & t & Hct & Hc).
+  assert (Hrw : so_rewrite (bytes_of_string ("so:" ++ nm ++ fst row ++ v)) =
+                if ends_release (bytes_of_string v)
+                then so_bytes ++ bytes_of_string nm ++ bytes_of_string (fst row) ++ bytes_of_string v
+                else so_bytes ++ bytes_of_string nm ++ bytes_of_string (fst row) ++ 48%N :: 46%N :: bytes_of_string v).
+  { rewrite !bytes_app. apply so_rewrite_split; try assumption.
+    - unfold no_op. rewrite forallb_app. fold (no_op so_bytes) (no_op (bytes_of_string nm)).
+      rewrite (namechars_no_op _ so_bytes_namechars), (namechars_no_op _ Hn). reflexivity.
+    - rewrite Hct. cbn. unfold is_digit, is_opchar in *. lia. }
   assert (Hres : forall vs m, parse_version vs = Some m ->
             so_rewrite (bytes_of_string ("so:" ++ nm ++ fst row ++ v)) =
               (so_bytes ++ bytes_of_string nm) ++ bytes_of_string (fst row) ++ bytes_of_string vs ++ pin_tail [] ->
             resolve_constraint ("so:" ++ nm ++ fst row ++ v) =
               {| c_name := "so:" ++ nm; c_version := vs; c_dep := snd row; c_pin := "" |}).
-  { intros vs m Hvs Hrw.
-    rewrite (resolve_rewritten _ _ _ _ _ Hrw
+  { intros vs m Hvs Hr. rewrite resolve_with_today.
+    rewrite (resolve_with_rewritten _ _ _ _ _ _ Hr
                (clean_so nm _ vs m Hn Ho1 Ho2 (bytes_are_bytes _) Hvs)).
     unfold so_bytes. rewrite <- (bytes_app "so:" nm). rewrite !string_of_bytes_of_string. rewrite (dep_of_row row Hin). reflexivity. }
   unfold so_version, ends_release_s.
-  destruct (has_eq (fst row)) eqn:He.
-  - destruct Hshape as (o & Eo & No & _).
-    assert (Hrw : so_rewrite (bytes_of_string ("so:" ++ nm ++ fst row ++ v)) =
-                  if ends_release (bytes_of_string v)
-                  then so_bytes ++ (bytes_of_string nm ++ o) ++ 61%N :: bytes_of_string v
-                  else so_bytes ++ (bytes_of_string nm ++ o) ++ 61%N :: 48%N :: 46%N :: bytes_of_string v).
-    { rewrite Hbytes, Eo. rewrite <- so_rewrite_eq by (rewrite no_eq_app, (namechars_no_eq _ Hn), No; reflexivity).
-      f_equal. rewrite <- !app_assoc. reflexivity. }
-    destruct (ends_release (bytes_of_string v)); cbn [negb andb].
-    + apply (Hres v pv Hp). rewrite Hrw, Eo. cbn [pin_tail]. rewrite app_nil_r, <- !app_assoc. reflexivity.
-    + apply (Hres ("0." ++ v)%string (cons0m pv) (parse_zero_dot v pv Hp)).
-      rewrite Hrw, Eo, bytes_zero_dot. cbn [pin_tail]. rewrite app_nil_r, <- !app_assoc. reflexivity.
-  - destruct Hshape as (No & _). cbn [andb].
-    apply (Hres v pv Hp). rewrite Hbytes.
-    rewrite so_rewrite_no_eq.
-    + cbn [pin_tail]. rewrite app_nil_r, <- !app_assoc. reflexivity.
-    + rewrite !no_eq_app, (namechars_no_eq _ Hn), No. cbn [andb].
-      pose proof (parsed_alphabet v pv Hp) as Hv. revert Hv. apply forallb_impl.
-      intros x Hx. destruct (verchar_facts x Hx) as (_ & _ & _ & E & _). rewrite E. reflexivity.
+  destruct (ends_release (bytes_of_string v)); cbn [negb].
+  - apply (Hres v pv Hp). rewrite Hrw. cbn [pin_tail]. rewrite app_nil_r, <- !app_assoc. reflexivity.
+  - apply (Hres ("0." ++ v)%string (cons0m pv) (parse_zero_dot v pv Hp)).
+    rewrite Hrw, bytes_zero_dot. cbn [pin_tail]. rewrite app_nil_r, <- !app_assoc. reflexivity.
 Qed.
 
 (* ---------- the verdict ---------------------------------------------------------------- *)
@@ -206,96 +217,47 @@ Definition scaled (rescale : bool) (v : ver) : ver := if rescale then cons0 v el
 Lemma eq_row_in : In ("=", dep_versionEqual) matcher_table.
 Proof. vm_compute. auto. Qed.
 
-Lemma parse_so_version op v pv vr : parse_version v = Some pv -> abs pv = Some vr ->
-  exists m, parse_version (so_version op v) = Some m /\
-            abs m = Some (scaled (has_eq op && negb (ends_release_s v)) vr).
+Lemma parse_so_version x px vx : parse_version x = Some px -> abs px = Some vx ->
+  exists m, parse_version (so_version x) = Some m /\ abs m = Some (scaled (negb (ends_release_s x)) vx).
 Proof.
-  intros Hp Ha. unfold so_version, scaled.
-  destruct (has_eq op && negb (ends_release_s v)).
-  - exact (parse_zero_dot_abs v pv vr Hp Ha).
-  - exists pv. split; assumption.
+  intros Hx Hax. unfold so_version, scaled. destruct (negb (ends_release_s x)).
+  - exact (parse_zero_dot_abs x px vx Hx Hax).
+  - exists px. split; assumption.
 Qed.
 
-(* what the code does, for every operator row, name and pair of version strings (all four kinds of pairs) *)
+(* every one of the six operators puts both sides on one scale; same kind => the order of the versions *)
 Theorem so_verdict row nm v w pv pw :
   In row matcher_table -> namechars nm -> parse_version v = Some pv -> parse_version w = Some pw ->
   exists a va vr, abs pw = Some va /\ abs pv = Some vr /\
     parse_version (c_version (resolve_constraint ("so:" ++ nm ++ "=" ++ w))) = Some a /\
     satisfied_by (resolve_constraint ("so:" ++ nm ++ fst row ++ v)) a =
-      Some (spec_sat (vop_of_string (fst row))
-              (scaled (negb (ends_release_s w)) va)
-              (scaled (has_eq (fst row) && negb (ends_release_s v)) vr)).
+      Some (spec_sat (vop_of_string (fst row)) (scaled (negb (ends_release_s w)) va) (scaled (negb (ends_release_s v)) vr)) /\
+    (ends_release_s v = ends_release_s w ->
+     satisfied_by (resolve_constraint ("so:" ++ nm ++ fst row ++ v)) a = Some (spec_sat (vop_of_string (fst row)) va vr)).
 Proof.
   intros Hin Hn Hv Hw.
   destruct (parse_abs _ _ Hv) as [vr Hr]. destruct (parse_abs _ _ Hw) as [va Ha].
   pose proof (resolve_so ("=", dep_versionEqual) nm w pw eq_row_in Hn Hw) as Rw. cbn [fst snd] in Rw.
   pose proof (resolve_so row nm v pv Hin Hn Hv) as Rv.
-  destruct (parse_so_version "=" w pw va Hw Ha) as (a & Pa & Aa).
-  destruct (parse_so_version (fst row) v pv vr Hv Hr) as (r & Pr & Ar).
+  destruct (parse_so_version w pw va Hw Ha) as (a & Pa & Aa). destruct (parse_so_version v pv vr Hv Hr) as (r & Pr & Ar).
   exists a, va, vr. split; [exact Ha|]. split; [exact Hr|].
   rewrite Rw, Rv. cbn [c_version]. split; [exact Pa|].
-  destruct (satisfied_by_is_spec row ("so:" ++ nm) "" (so_version (fst row) v) r a Hin Pr _ Pa)
+  destruct (satisfied_by_is_spec row ("so:" ++ nm) "" (so_version v) r a Hin Pr _ Pa)
     as (va' & vr' & Ea & Er & S).
   rewrite Aa in Ea. rewrite Ar in Er. inversion Ea; inversion Er; subst va' vr'.
-  exact S.
+  split; [exact S|]. intros Hk. rewrite S, Hk. unfold scaled.
+  destruct (negb (ends_release_s w)); [rewrite spec_sat_cons0|]; reflexivity.
 Qed.
 
-(* operators that contain "=" (=, >=, <=), both versions of the same kind: the order of the versions *)
-Corollary so_verdict_with_eq row nm v w pv pw :
-  In row matcher_table -> has_eq (fst row) = true -> namechars nm ->
-  parse_version v = Some pv -> parse_version w = Some pw ->
-  ends_release_s v = ends_release_s w ->
-  exists a va vr, abs pw = Some va /\ abs pv = Some vr /\
-    parse_version (c_version (resolve_constraint ("so:" ++ nm ++ "=" ++ w))) = Some a /\
-    satisfied_by (resolve_constraint ("so:" ++ nm ++ fst row ++ v)) a =
-      Some (spec_sat (vop_of_string (fst row)) va vr).
-Proof.
-  intros Hin He Hn Hv Hw Hk.
-  destruct (so_verdict row nm v w pv pw Hin Hn Hv Hw) as (a & va & vr & Ha & Hr & Pa & S).
-  exists a, va, vr. repeat (split; [assumption|]). rewrite S, He, Hk. cbn [andb].
-  unfold scaled. destruct (negb (ends_release_s w)); [rewrite spec_sat_cons0|]; reflexivity.
-Qed.
-
-(* operators without "=" (>, <, ~), neither version with a release suffix: the provide is on the 0.W scale, the constraint is not *)
-Corollary so_verdict_without_eq row nm v w pv pw :
-  In row matcher_table -> has_eq (fst row) = false -> namechars nm ->
-  parse_version v = Some pv -> parse_version w = Some pw ->
-  ends_release_s w = false ->
-  exists a va vr, abs pw = Some va /\ abs pv = Some vr /\
-    parse_version (c_version (resolve_constraint ("so:" ++ nm ++ "=" ++ w))) = Some a /\
-    satisfied_by (resolve_constraint ("so:" ++ nm ++ fst row ++ v)) a =
-      Some (spec_sat (vop_of_string (fst row)) (cons0 va) vr).
-Proof.
-  intros Hin He Hn Hv Hw Hk.
-  destruct (so_verdict row nm v w pv pw Hin Hn Hv Hw) as (a & va & vr & Ha & Hr & Pa & S).
-  exists a, va, vr. repeat (split; [assumption|]). rewrite S, He, Hk. reflexivity.
-Qed.
-
-(* ... so against a constraint version whose first component is at least 1, the versions do not matter at all:
-   "so:N>V" is satisfied by no provide without release suffix, "so:N<V" by every one, "so:N~V" by none *)
-Corollary so_verdict_without_eq_constant row nm v w pv pw :
-  In row matcher_table -> has_eq (fst row) = false -> namechars nm ->
-  parse_version v = Some pv -> parse_version w = Some pw ->
-  ends_release_s w = false -> 0 < hd 0 (m_nums pv) ->
-  exists a, parse_version (c_version (resolve_constraint ("so:" ++ nm ++ "=" ++ w))) = Some a /\
-    satisfied_by (resolve_constraint ("so:" ++ nm ++ fst row ++ v)) a =
-      Some (match vop_of_string (fst row) with OpLt => true | _ => false end).
-Proof.
-  intros Hin He Hn Hv Hw Hk Hpos.
-  destruct (so_verdict_without_eq row nm v w pv pw Hin He Hn Hv Hw Hk) as (a & va & vr & Ha & Hr & Pa & S).
-  exists a. split; [exact Pa|]. rewrite S. f_equal.
-  assert (Hn' : nums vr = m_nums pv).
-  { unfold abs in Hr. destruct (decode_pre (m_pre pv)); [|discriminate]. destruct (decode_post (m_post pv)); [|discriminate].
-    inversion Hr; reflexivity. }
-  destruct (m_nums pv) as [|x rest] eqn:En; cbn [hd] in Hpos; [lia|].
-  assert (Hc : spec_cmp (cons0 va) vr = Lt).
-  { unfold spec_cmp. cbn [cons0 nums]. rewrite Hn'. cbn [cmp_nums].
-    replace (0 ?= x) with Lt by (symmetry; apply Z.compare_lt_iff; lia). reflexivity. }
-  destruct (op_row_facts row Hin) as (_ & _ & Hshape). rewrite He in Hshape. destruct Hshape as (_ & [E|[E|E]]);
-    rewrite E; cbn [spec_sat]; rewrite ?Hc; try reflexivity.
-  unfold spec_tilde. cbn [cons0 nums]. rewrite Hn'. cbn [is_prefix_z].
-  replace (x =? 0) with false by (symmetry; apply Z.eqb_neq; lia). reflexivity.
-Qed.
+(* the former witness of finding C03-F2, on today's code: 6 > 1 is answered true *)
+Example so_fixed_witness :
+  exists a, parse_version (c_version (resolve_constraint "so:libx.so.1=6")) = Some a /\
+            satisfied_by (resolve_constraint "so:libx.so.1>1") a = Some true /\
+            satisfied_by (resolve_constraint "so:libx.so.1<1") a = Some false /\
+            satisfied_by (resolve_constraint "so:libx.so.1~6") a = Some true /\
+            satisfied_by (resolve_constraint "so:libx.so.1>=1") a = Some true /\
+            satisfied_by (resolve_constraint "so:libx.so.1<=1") a = Some false.
+Proof. eexists. repeat split; vm_compute; reflexivity. Qed.
 
 (* ---------- endsWithReleaseStr, readably: the string ends in "-r" followed by at least one digit ---------- *)
 Definition rel_body : re := Cat (Lit [45; 114]%N) (Cat (Plus digit) Eps).
